@@ -18,12 +18,37 @@ EXPLANATION = ("the pre-release table is folded and checked to be {alpha<beta<rc
 MAN = "suit_generator.suit.manifest"
 
 
+
+def version_part_converter(repo):
+    """The converter of one version field: by its name, or - renamed, moved and re-signed - the one private function of the
+    repository that SuitComponentVersion.from_obj calls."""
+    try:
+        return repo.func(MAN, "SuitComponentVersion._convert_version_part")
+    except AnalysisError:
+        pass
+    fo = repo.func(MAN, "SuitComponentVersion.from_obj")
+    cands = {}
+    for n in ast.walk(fo.node):
+        if isinstance(n, ast.Call) and isinstance(n.func, (ast.Name, ast.Attribute)):
+            nm = n.func.id if isinstance(n.func, ast.Name) else n.func.attr
+            if not nm.startswith("_") or nm.startswith("__"):
+                continue
+            r = repo.resolve_expr(fo.module, n.func)
+            if r is None and isinstance(n.func, ast.Attribute) and isinstance(n.func.value, ast.Name) and n.func.value.id in ("cls", "self"):
+                g = repo.lookup_method(fo.cls, nm)
+                r = ("func", g) if g is not None else None
+            if r and r[0] == "func":
+                cands[id(r[1])] = r[1]
+    if len(cands) != 1:
+        raise AnalysisError(f"anchor function {MAN}:SuitComponentVersion._convert_version_part vanished ({len(cands)} candidates by role)")
+    return next(iter(cands.values()))
+
 def run(ctx):
     R = ctx.report
     repo = ctx.repo
     ctx.use_files("suit_generator/suit/manifest.py", "ncs/build.py")
     ev = Evaluator(repo, inline_depth=1)
-    conv = repo.func(MAN, "SuitComponentVersion._convert_version_part")
+    conv = version_part_converter(repo)
     fq = ctx.fq(conv)
     m = repo.mod(MAN)
 
@@ -47,7 +72,7 @@ def run(ctx):
 
     # ---- D1: converter outcomes
     R.rule("C20-D1b part conversion", 5, "numeric -> int(part); label -> value of the member of that exact name; else ValueError")
-    part = Sym("param:part")
+    part = Sym("param:" + ([p_ for p_ in conv.params() if p_ not in ("self", "cls")] or ["part"])[0])
     isstr = App("isinstance", (part, Ref("builtin", "str")))
     isnum = App("meth:isnumeric", (part,))
 
@@ -97,7 +122,9 @@ def run(ctx):
     # ---- D1: string splitting
     R.rule("C20-D1c string split", 1, "'-' is normalised to the field separator and every part is converted")
     fo = repo.func(MAN, "SuitComponentVersion.from_obj")
-    fouts = [o for o in Evaluator(repo, inline_depth=0).outcomes(fo) if o.kind == "return"]
+    ev_fo = Evaluator(repo, inline_depth=0)
+    ev_fo.never_inline = {conv.fq}  # examined on its own above; here it is the stand-in of the evaluation
+    fouts = [o for o in ev_fo.outcomes(fo) if o.kind == "return"]
     obj = Sym("param:obj")
     # decided by evaluating what is handed to the list constructor on sample versions, with a stand-in for the part conversion
     # (comprehension, loop or map alike); a term that cannot be evaluated is not a verdict
